@@ -194,9 +194,13 @@ func runC19(r *mc.Run) {
 		enc := c.Free("config-encoding", 2)
 		var cfgS, flagS, flagMeaning [14]int
 		for i, f := range fields {
-			cfgS[i] = c.Choose("cfg."+f.name, 4)
+			nCfg := 4
+			if f.name == "minimum_tee_tcb_svn" {
+				nCfg = 5 // state 4: an earlier component below the quote's, a later one above it (a mismatch)
+			}
+			cfgS[i] = c.Choose("cfg."+f.name, nCfg)
 			if !f.cfgOnly {
-				n := 4
+				n := nCfg
 				if f.svn {
 					n = 4 + len(c19SvnSpellings) // further spellings of a number
 				}
@@ -273,6 +277,9 @@ func runC19(r *mc.Run) {
 						}
 					case 3:
 						v = v[:len(v)-1]
+					case 4:
+						v[0], v[2], v[15] = want[0]-1, want[2]+1, want[15]-1
+						cfgState = 2
 					}
 					f.set(pol, v, 0)
 				}
@@ -306,6 +313,9 @@ func runC19(r *mc.Run) {
 					switch flagState {
 					case 2:
 						v[0] ^= 0x80
+					case 4:
+						v[0], v[2], v[15] = want[0]-1, want[2]+1, want[15]-1
+						flagState = 2
 					}
 					val = hexs(v)
 					if flagState == 3 {
